@@ -397,6 +397,10 @@ def apply_op(mg, g, op, tmpdir=None, info=None):
                                                  convention=g.convention, atmos_type=g.atmosphere_type,
                                                  origin=[0., 0., unhx(a['top'])])
                 g.copy_layers_from(other)
+            elif name == 'set_column_num_layers':
+                # the public per-column recount (what read_surface / fit_surface / copy_layers_from call per column)
+                for col in ([find_col(g, l) for l in a.get('cols', [])] or list(g.columnlist)):
+                    g.set_column_num_layers(col)
             elif name == 'identify_neighbours':
                 g.identify_neighbours()
             elif name == 'setup_names':
